@@ -10,9 +10,12 @@ EXPLANATION = (
     "through that same guard; every punch happens with the layout read lock and the file read lock held; fallocate "
     "is called with FALLOC_FL_KEEP_SIZE; the data file's length is only ever changed by the two growth functions.")
 
+import props.anchors as anchors
+
 
 def run(ctx, chk):
     O, P, L = ctx.O, ctx.P, ctx.L
+    anchors.check(ctx, chk, ['punch', 'promote_reads_pending'])
     flush_before_punch(ctx, chk, "B12.1")
     ph = O.body(PUNCH_HOLES)
     # B12.2 tail punch under META:W, same guard for the three reads
